@@ -181,6 +181,9 @@ func Run(opts *Options) (int, error) {
 			}
 			return pushed
 		}, eventBox, executor, opts.ReadZero, opts.Filter == nil)
+		if terminal != nil {
+			terminal.readerKiller = reader.terminate
+		}
 
 		readyChan := make(chan bool)
 		go reader.ReadSource(opts.Input, opts.WalkerRoot, opts.WalkerOpts, opts.WalkerSkip, initialReload, initialEnv, readyChan)
